@@ -434,6 +434,20 @@ func (ex *Exec) evalField(base TV, sel string, env *CEnv, e Expr) TV {
 				v = &Ptr{Ref: x.Sym, Root: pt.Elem()}
 				continue
 			}
+			// a /repo interface with a declared concrete implementation (dispatch)
+			if n, ok := t.(*types.Named); ok && x.Sym != nil && x.Sym.Sort == SRef && n.Obj().Pkg() != nil {
+				if target, ok := ex.lib.Dispatch[n.Obj().Pkg().Path()+"."+n.Obj().Name()]; ok {
+					target = strings.TrimPrefix(target, "*")
+					i := strings.LastIndex(target, ".")
+					if p := ex.prog.ImportedPackage(target[:i]); p != nil {
+						if tm, ok := p.Members[target[i+1:]].(*ssa.Type); ok {
+							v = &Ptr{Ref: x.Sym, Root: tm.Type()}
+							t = types.NewPointer(tm.Type())
+							continue
+						}
+					}
+				}
+			}
 		}
 		break
 	}
